@@ -33,10 +33,16 @@ static uint8_t win_store[WIN + 16] __attribute__((aligned(16)));
 static uint8_t *win;
 static unsigned fillctr;
 static int cur_fill, cur_off;
+/* another driver (drv_purity.c) may include this file: it varies the window's
+ * previous content through g_win_salt and receives every round trip through
+ * g_rt_hook instead of the trace */
+static unsigned g_win_salt;
+static void (*g_rt_hook)(const char *fam, const char *put, uint64_t v, int w, int start, int pret, int gret,
+                         uint64_t val);
 
 static uint8_t *win_prep(void) {
     fillctr++;
-    cur_fill = (int)((fillctr * 53u + 11u) & 255u);
+    cur_fill = (int)((fillctr * 53u + 11u + g_win_salt) & 255u);
     cur_off = OFF0 + (int)(fillctr % 8u);
     win = win_store;
     for (int i = 0; i < WIN; i++) {
@@ -49,6 +55,10 @@ static uint8_t *win_prep(void) {
 static void rt_emit(const char *fam, const char *put, const char *get,
                     uint64_t v, int w, int start, const char *img, int pret,
                     int gret, uint64_t val) {
+    if (g_rt_hook) {
+        g_rt_hook(fam, put, v, w, start, pret, gret, val);
+        return;
+    }
     ev_begin("RT");
     ev_str("fam", fam);
     ev_str("put", put);
@@ -66,6 +76,9 @@ static void rt_emit(const char *fam, const char *put, const char *get,
 }
 static void len_emit(const char *fam, const char *api, uint64_t v, int b,
                      int pret, int ret) {
+    if (g_rt_hook) {
+        return;
+    }
     ev_begin("Len");
     ev_str("fam", fam);
     ev_str("api", api);
@@ -771,6 +784,7 @@ static void mode_bits(size_t shard, size_t nshards, size_t nrandom) {
     }
 }
 
+#ifndef DRV_SCALAR_NO_MAIN
 int main(int argc, char **argv) {
     if (argc < 7) {
         fprintf(stderr,
@@ -785,6 +799,7 @@ int main(int argc, char **argv) {
     size_t nshards = strtoul(argv[4], NULL, 10);
     size_t nrandom = strtoul(argv[5], NULL, 10);
     tr_open(argv[6]);
+    tr_install_died(); /* an assertion inside an (unguarded) scalar call must not take the trace with it */
     rng_seed(env_seed());
     if (!strcmp(mode, "rt")) {
         mode_rt(shard, nshards, nrandom);
@@ -802,3 +817,4 @@ int main(int argc, char **argv) {
     tr_close();
     return 0;
 }
+#endif
